@@ -663,7 +663,7 @@ def mon_C08(sc, trace):
                         if d != n:
                             exp[(d, int(t[3]))].append(due)
     exhausted = (P and P[-1][0] == "end" and P[-1][1] == "done" and sc["dur"] is None and sc["maxit"] is None
-                 and sc["drv"][0] == "run")
+                 and sc["drv"][0] in ("run", "drive"))
     if exhausted:
         fin = next((i for i, t in enumerate(P) if t[0] == "cb" and t[3] == "finish"), len(P))
         # copies requested from inside finish() are never delivered by design
